@@ -772,7 +772,7 @@ def main(run):
                 'one transaction.')
     for nm, sc in load_corpus():
         run_case(run, model, sc, 'corpus:' + nm)
-    n = vlib.scaled(run.tier, 60, 1500)
+    n = vlib.scaled(run.tier, 120, 3000)
     for i in range(n):
         size = rng.choice((3, 6, 10, 16, 24, 30))
         run_case(run, model, gen_scenario(rng, size), f'random:{i}')
